@@ -9,18 +9,23 @@ pub struct Input {
     pub src: String,
     pub delims: Option<Vec<String>>,
     pub delims_valid: Option<bool>,
+    /// other templates registered in the same call (parents, include targets)
+    pub set: Vec<(String, String)>,
     /// how to rebuild `src` when it is too long to be stored
     pub recipe: J,
 }
 
 impl Input {
     pub fn new(stream: &'static str, class: impl Into<String>, src: impl Into<String>) -> Self {
-        Input { stream, class: class.into(), name: "t".into(), src: src.into(), delims: None, delims_valid: None, recipe: J::Null }
+        Input { stream, class: class.into(), name: "t".into(), src: src.into(), delims: None, delims_valid: None, set: Vec::new(), recipe: J::Null }
     }
     pub fn json(&self) -> J {
         let mut j = json!({"name": self.name, "src": self.src});
         if let Some(d) = &self.delims {
             j["d"] = json!(d);
+        }
+        if !self.set.is_empty() {
+            j["set"] = json!(self.set);
         }
         j
     }
@@ -44,7 +49,8 @@ pub const NEST_KINDS: [&str; 26] = [
     "nest:open-paren", "nest:if-else", "nest:for-else", "nest:component-attr",
 ];
 
-pub const CHAIN_KINDS: [&str; 27] = [
+pub const CHAIN_KINDS: [&str; 33] = [
+    "chain:index-on-string", "chain:index-on-int", "chain:index-on-paren", "chain:index-on-array", "chain:slice-on-string", "chain:opt-index-on-string",
     "chain:elif", "chain:filter", "chain:attr", "chain:index", "chain:and", "chain:or", "chain:tilde", "chain:plus",
     "chain:minus", "chain:mul", "chain:is", "chain:opt-attr", "chain:opt-index", "chain:cmp", "chain:in", "chain:err-tail",
     "chain:mixed", "chain:kwargs", "chain:array", "chain:map", "chain:vars", "chain:if-flat", "chain:set-filters",
@@ -129,6 +135,13 @@ pub fn build_recipe(r: &J) -> String {
         "chain:attr" => format!("{{{{ a{} }}}}", rep(".b", n)),
         "chain:opt-attr" => format!("{{{{ a{} }}}}", rep("?.b", n)),
         "chain:index" => format!("{{{{ a{} }}}}", rep("[0]", n)),
+        // subscripts on a primary that is not an identifier go through the operator loop, not parse_ident
+        "chain:index-on-string" => format!("{{{{ \"x\"{} }}}}", rep("[0]", n)),
+        "chain:index-on-int" => format!("{{{{ 1{} }}}}", rep("[0]", n)),
+        "chain:index-on-paren" => format!("{{{{ (a){} }}}}", rep("[0]", n)),
+        "chain:index-on-array" => format!("{{{{ [a]{} }}}}", rep("[0]", n)),
+        "chain:slice-on-string" => format!("{{{{ \"x\"{} }}}}", rep("[0:1]", n)),
+        "chain:opt-index-on-string" => format!("{{{{ \"x\"{} }}}}", rep("?[0]", n)),
         "chain:opt-index" => format!("{{{{ a{} }}}}", rep("?[0]", n)),
         "chain:and" => format!("{{{{ a{} }}}}", rep(" and a", n)),
         "chain:or" => format!("{{{{ a{} }}}}", rep(" or a", n)),
@@ -296,10 +309,135 @@ fn push_mutations(out: &mut Vec<Input>, label: &str, src: &str, rng: &mut Rng, k
     }
 }
 
+pub const LINE_ENDINGS: [(&str, &str); 9] = [
+    ("lf", "\n"), ("crlf", "\r\n"), ("cr", "\r"), ("lfcr", "\n\r"), ("ls", "\u{2028}"), ("nel", "\u{85}"), ("vt", "\u{b}"),
+    ("ff", "\u{c}"), ("mixed", ""),
+];
+
+fn nl_of(flavour: usize, k: usize) -> &'static str {
+    let (name, nl) = LINE_ENDINGS[flavour];
+    if name == "mixed" { ["\r", "\n", "\r\n", "\r", "\u{2028}", "\n\r", "\r"][k % 7] } else { nl }
+}
+
+/// every "\n" of `src` rewritten in the given flavour (the k-th one matters for `mixed`)
+fn rewrite_line_endings(src: &str, flavour: usize) -> String {
+    let mut out = String::with_capacity(src.len() + 16);
+    let mut k = 0;
+    for c in src.chars() {
+        if c == '\n' {
+            out.push_str(nl_of(flavour, k));
+            k += 1;
+        } else {
+            out.push(c);
+        }
+    }
+    out
+}
+
+/// sources whose registration returns an Err that renders a source report:
+/// (label, snippet, templates registered with it)
+fn report_errors() -> Vec<(&'static str, &'static str, Vec<(&'static str, &'static str)>)> {
+    vec![
+        ("unknown-filter", "{{ 1 | nope }}", vec![]),
+        ("unknown-filter-kwargs", "{{ a | nope(x=1) }}", vec![]),
+        ("unknown-test", "{{ 1 is nope }}", vec![]),
+        ("unknown-function", "{{ nope() }}", vec![]),
+        ("unknown-component", "{{ <Nope /> }}", vec![]),
+        ("unknown-component-body", "{% <Nope> %}b{% </Nope> %}", vec![]),
+        ("unknown-include", "{% include \"nope\" %}", vec![]),
+        ("unknown-filter-section", "{% filter nope %}x{% endfilter %}", vec![]),
+        ("unknown-set-filter", "{% set v | nope %}x{% endset %}", vec![]),
+        ("unknown-in-if", "{% if a | nope %}x{% endif %}", vec![]),
+        ("unknown-in-for", "{% for i in a | nope %}x{% endfor %}", vec![]),
+        ("two-unknowns", "{{ 1 | nope }}{{ 2 is nope2 }}", vec![]),
+        ("block-not-in-parent", "{% block nope %}x{% endblock %}", vec![("p", "no blocks here")]),
+        ("block-not-in-grandparent", "{% block nope %}x{% endblock %}", vec![("p", "{% extends \"g\" %}"), ("g", "g")]),
+        ("unknown-in-block", "{% block b %}{{ 1 | nope }}{% endblock %}", vec![("p", "{% block b %}{% endblock %}")]),
+        ("unknown-in-component-def", "{% component C() %}{{ 1 | nope }}{% endcomponent %}", vec![]),
+        ("syntax-unexpected", "{{ 1 + }}", vec![]),
+        ("syntax-eoi", "{{ 1 +", vec![]),
+        ("syntax-unknown-tag", "{% nope %}", vec![]),
+        ("syntax-unclosed-if", "{% if a %}", vec![]),
+        ("syntax-string", "{{ \"abc }}", vec![]),
+        ("syntax-char", "{{ $ }}", vec![]),
+        ("syntax-comment", "{# never closed", vec![]),
+        ("syntax-raw", "{% raw %}never closed", vec![]),
+        ("syntax-too-deep", "{{ ((((((((((((((((((((((((((((((((((((((((1)))))))))))))))))))))))))))))))))))))))) }}", vec![]),
+        ("syntax-dup-kwarg", "{{ f(a=1, a=2) }}", vec![]),
+        ("syntax-dup-block", "{% block b %}{% endblock %}{% block b %}{% endblock %}", vec![]),
+        ("syntax-dup-component", "{% component C() %}{% endcomponent %}{% component C() %}{% endcomponent %}", vec![]),
+        ("syntax-endblock-name", "{% block a %}{% endblock b %}", vec![]),
+        ("syntax-int", "{{ 99999999999999999999 }}", vec![]),
+        ("ok-no-error", "{{ 1 | upper }}", vec![]),
+    ]
+}
+
+/// Line-ending flavours x registration-time errors x position of the error (first / middle / last line)
+/// x with or without a final terminator; the filler lines put line breaks before and inside tags,
+/// strings and comments.
+fn push_line_ending_inputs(out: &mut Vec<Input>, rng: &mut Rng, thorough: bool, corpus: &[(String, String)], hand: &[&str]) {
+    let filler = ["text {{ a }} text", "{# a comment\nover two lines #}", "{{ \"a string\nover two lines\" }}",
+        "{% if a\n %}x{% endif %}", "{{ a\n | upper\n }}", "{%- set v = 1\n-%}", "last filler"];
+    for (label, snippet, set) in report_errors() {
+        for (fi, (fname, _)) in LINE_ENDINGS.iter().enumerate() {
+            for pos in 0..3usize {
+                for final_nl in [false, true] {
+                    // quick tier: the final terminator only varies for the error on the last line
+                    if !thorough && final_nl && pos != 2 {
+                        continue;
+                    }
+                    let mut lines: Vec<&str> = filler.to_vec();
+                    let at = match pos { 0 => 0, 1 => lines.len() / 2, _ => lines.len() };
+                    lines.insert(at, snippet);
+                    let mut src = lines.join("\n");
+                    if final_nl {
+                        src.push('\n');
+                    }
+                    // block / extends sources: the child needs its extends tag first
+                    let needs_parent = set.iter().any(|(n, _)| *n == "p");
+                    if needs_parent {
+                        src = format!("{{% extends \"p\" %}}\n{src}");
+                    }
+                    let mut i = Input::new("line-endings", format!("nl:{fname}:{label}:pos{pos}:final{}", final_nl as u8), rewrite_line_endings(&src, fi));
+                    i.set = set.iter().map(|(n, s)| (n.to_string(), rewrite_line_endings(&format!("l1\n{s}\nl3"), fi))).collect();
+                    out.push(i);
+                }
+            }
+            // the minimal shapes: one break, then the error
+            let mut i = Input::new("line-endings", format!("nl:{fname}:{label}:min"), format!("a{}{snippet}", nl_of(fi, 0)));
+            i.set = set.iter().map(|(n, s)| (n.to_string(), s.to_string())).collect();
+            if set.iter().any(|(n, _)| *n == "p") {
+                i.src = format!("{{% extends \"p\" %}}{}{snippet}", nl_of(fi, 0));
+            }
+            out.push(i);
+        }
+    }
+    // every corpus source and every hand-written error source with its line endings rewritten (and two
+    // breaks put in front, so that sources without any line break get some)
+    for (label, src) in corpus {
+        for fi in 1..LINE_ENDINGS.len() {
+            if thorough || rng.chance(1, 6) {
+                let fname = LINE_ENDINGS[fi].0;
+                out.push(Input::new("line-endings", format!("nl:{fname}:corpus:{label}"), rewrite_line_endings(&format!("l1\nl2\n{src}\n"), fi)));
+                // ... and followed by a reference that fails at registration
+                out.push(Input::new("line-endings", format!("nl:{fname}:corpus+unknown:{label}"), rewrite_line_endings(&format!("{src}\n{{{{ 1 | nope }}}}"), fi)));
+            }
+        }
+    }
+    for (k, src) in hand.iter().enumerate() {
+        for fi in 0..LINE_ENDINGS.len() {
+            if thorough || rng.chance(1, 4) {
+                let fname = LINE_ENDINGS[fi].0;
+                out.push(Input::new("line-endings", format!("nl:{fname}:hand:{k}"), rewrite_line_endings(&format!("l1\nl2\n{src}\nl4"), fi)));
+            }
+        }
+    }
+}
+
 pub fn oracle_inputs(rng: &mut Rng, thorough: bool) -> Vec<Input> {
     let mut out = Vec::new();
     // 0. hand-written corner cases
-    for (k, s) in [
+    let hand: Vec<&str> = vec![
         "", "{", "{{", "{%", "{#", "}}", "%}", "{{ }}", "{% %}", "{{-", "{{--}}", "{%-", "{%- -%}", "{{-}}", "{#-#}", "{#-", "{##}",
         "{{ \"", "{{ '", "{{ `", "{{ \"\\", "{{ \"\\\"", "{{ \"\\x\" }}", "{% raw %}", "{% raw %}{% endraw", "{% raw %}{%", "{%raw%}{%endraw%}",
         "{% raw %}{% endraw %}{% endraw %}", "{%- raw -%}{%- endraw -%}", "{{ 1. }}", "{{ 1.2.3 }}", "{{ .5 }}", "{{ 1e400 }}", "{{ a.1 }}",
@@ -326,7 +464,8 @@ pub fn oracle_inputs(rng: &mut Rng, thorough: bool) -> Vec<Input> {
         "{{ a ! b }}", "{{ $ }}", "{{ é }}", "{{ a }} é {% é %}", "{{ \u{a0}a }}", "{{\ta\n}}", "{{ a\r\n}}", "{{ a }", "{{ a %}", "{% if a }}",
         "{{ 9223372036854775807 }}", "{{ 9223372036854775808 }}", "{{ -9223372036854775808 }}", "{{ 00000000000000000000000001 }}",
         "{{ 1..2 }}", "{{ a...b }}", "{{ ... }}", "{{ a ?? b }}", "{{ a ? b }}", "{{ super() }}", "{{ super( }}",
-    ]
+    ];
+    for (k, s) in hand
     .iter()
     .enumerate()
     {
@@ -334,7 +473,9 @@ pub fn oracle_inputs(rng: &mut Rng, thorough: bool) -> Vec<Input> {
     }
     // 1. prefixes and single-character deletions of the snapshot corpus and of the base templates
     let corpus = tvh::corpus::corpus_templates();
-    let (kn, kd) = if thorough { (1, 1) } else { (1, 16) };
+    // 0b. line-ending flavours x registration-time errors
+    push_line_ending_inputs(&mut out, rng, thorough, &corpus, &hand);
+    let (kn, kd) = if thorough { (1, 1) } else { (1, 20) };
     for (label, src) in &corpus {
         push_mutations(&mut out, label, src, rng, kn, kd);
         out.push(Input::new("corpus", format!("corpus:{label}"), src.as_str()));
@@ -388,7 +529,7 @@ pub fn oracle_inputs(rng: &mut Rng, thorough: bool) -> Vec<Input> {
     // 4. chains (not nestings)
     let cs: Vec<usize> = if thorough { vec![10, 100, 250, 500, 1000, 2000, 5000, 10_000, 100_000] } else { vec![10, 250, 1000, 100_000] };
     for kind in CHAIN_KINDS {
-        let deep = DEEP_CHAINS.contains(&kind);
+        let deep = DEEP_CHAINS.contains(&kind) || kind.contains("-on-");
         for &n in &cs {
             // flat constructs are fully parsed, compiled and rendered: 10^5 of them only in the thorough tier
             let n = if !deep && !thorough && n > 20_000 { 20_000 } else { n };
